@@ -31,6 +31,8 @@ type dispFold struct {
 	why  string
 	root *ssa.Function
 	rows []*dispRow
+	// extra: unions and the pointer wrapper — which codec types come out, not judged by BT-WIDTH
+	extra []*dispRow
 }
 
 var dispFoldCache = map[*Program]*dispFold{}
@@ -86,6 +88,14 @@ func dispatchByFold(P *Program) *dispFold {
 		{"fixed/5", sch("fixed", map[string]cpVal{"Size": cpInt{5}, "Name": cpStr{"F"}})},
 		{"array", sch("array", map[string]cpVal{"Items": long})},
 		{"map", sch("map", map[string]cpVal{"Values": long})},
+		{"record", sch("record", map[string]cpVal{"Name": cpStr{"R"}})},
+	}
+	mkUnion := func(branches ...cpVal) cpVal {
+		sl := cpSlice{}
+		for _, b := range branches {
+			sl.Elems = append(sl.Elems, &cpCell{V: b, T: schemaT})
+		}
+		return cpStructOf(schemaT, map[string]cpVal{"Type": cpStr{"union"}, "Union": sl})
 	}
 	type tv struct {
 		name string
@@ -149,6 +159,37 @@ func dispatchByFold(P *Program) *dispFold {
 			}
 			d.rows = append(d.rows, row)
 		}
+	}
+	// unions and the pointer wrapper: only which codec types they produce matters here (their own rules judge them)
+	extra := []struct {
+		st string
+		s  cpVal
+		rt *cpRType
+		tn string
+	}{
+		{"union", mkUnion(sch("null", nil), long), cpRTypeOfKind(reflect.Int64, false), "int64"},
+		{"union", mkUnion(long, sch("null", nil)), cpRTypeOfKind(reflect.Int64, false), "int64"},
+		{"union", mkUnion(sch("null", nil), sch("string", nil)), cpRTypeOfKind(reflect.String, false), "string"},
+		{"union", mkUnion(sch("null", nil), long, sch("string", nil)), cpRTypeOfKind(reflect.Int64, false), "int64"},
+		{"pointer", long, &cpRType{ID: "*int64", Kind: int64(reflect.Ptr), Elem: cpRTypeOfKind(reflect.Int64, false), Size: 8}, "*int64"},
+	}
+	for _, x := range extra {
+		outs, _, ok, _ := cpFoldOpt(P, root, []cpVal{x.s, x.rt, cpUnk{ID: "arg:omit"}}, nil)
+		if !ok {
+			continue
+		}
+		row := &dispRow{st: x.st + "/extra", tname: x.tn, rt: x.rt}
+		for _, o := range outs {
+			if o.Panics || len(o.Results) != 2 {
+				continue
+			}
+			if _, isNil := o.Results[1].(cpNil); isNil {
+				if _, isI := o.Results[0].(cpIface); isI {
+					row.codecs = append(row.codecs, o.Results[0])
+				}
+			}
+		}
+		d.extra = append(d.extra, row)
 	}
 	d.ok = true
 	return d
